@@ -834,9 +834,58 @@ func (e *Enc) encodeStore(x *ssa.Store) {
 		e.writersObligation(e.p.fieldKey(av.Addr.Struct, av.Addr.Field), av.Addr.Base, x.Pos())
 		e.storeAtClauses(x, av.Addr)
 	}
+	if av.Addr.Kind == "elem" {
+		e.writersObligation(e.p.elemKey(av.Addr.Elem), av.Addr.Base, x.Pos())
+	}
 	e.frameObligationAddr(x, av.Addr, x.Pos())
 	e.store(av.Addr, e.termOf(x.Val))
-	e.typeInvAfterStore(av.Addr, x.Pos())
+	if fa, ok := x.Addr.(*ssa.FieldAddr); ok && av.Addr.Kind == "field" {
+		fname := av.Addr.Struct.Underlying().(*types.Struct).Field(av.Addr.Field).Name()
+		if e.moreStoresToSameObject(x) {
+			if e.pendingInv == nil {
+				e.pendingInv = map[ssa.Value][]string{}
+			}
+			e.pendingInv[fa.X] = append(e.pendingInv[fa.X], fname)
+		} else {
+			e.typeInvAfterStore(av.Addr, x.Pos(), e.pendingInv[fa.X])
+			delete(e.pendingInv, fa.X)
+		}
+	} else {
+		e.typeInvAfterStore(av.Addr, x.Pos(), nil)
+	}
+}
+
+// moreStoresToSameObject: the store is followed, in the same block and with no call in between, by another store
+// to a field of the same object. Such a run of stores is one update of the object: its invariant (which may relate
+// several fields) is checked after the last store of the run. The invariant is only relied upon at calls, returns
+// and loads of the object from the heap, none of which happens inside the run.
+func (e *Enc) moreStoresToSameObject(x *ssa.Store) bool {
+	fa, ok := x.Addr.(*ssa.FieldAddr)
+	if !ok {
+		return false
+	}
+	b := x.Block()
+	after := false
+	for _, in := range b.Instrs {
+		if in == ssa.Instruction(x) {
+			after = true
+			continue
+		}
+		if !after {
+			continue
+		}
+		switch y := in.(type) {
+		case *ssa.Store:
+			if fb, ok := y.Addr.(*ssa.FieldAddr); ok && fb.X == fa.X {
+				return true
+			}
+		case *ssa.FieldAddr, *ssa.UnOp, *ssa.BinOp, *ssa.Convert, *ssa.ChangeType, *ssa.DebugRef, *ssa.IndexAddr, *ssa.Index, *ssa.Field, *ssa.Extract, *ssa.MakeInterface, *ssa.Slice, *ssa.Lookup, *ssa.ChangeInterface, *ssa.Phi:
+			_ = y
+		default:
+			return false
+		}
+	}
+	return false
 }
 
 func (e *Enc) encodeUnOp(x *ssa.UnOp) {
@@ -1051,9 +1100,21 @@ func (e *Enc) encodeFloatOp(x *ssa.BinOp, a, b Term) {
 	}
 }
 
+func isUnsafePointer(t types.Type) bool {
+	b, ok := t.Underlying().(*types.Basic)
+	return ok && b.Kind() == types.UnsafePointer
+}
+
 func (e *Enc) encodeConvert(x *ssa.Convert) {
 	from := x.X.Type().Underlying()
 	to := x.Type().Underlying()
+	if isUnsafePointer(from) || isUnsafePointer(to) {
+		// the typed heap model (immutable strings, no aliasing between values of different types) does not cover
+		// reinterpreting memory: nothing proved about this function survives such a conversion
+		e.oblige("unsafe", "pointer-conversion", x.Pos(), False, nil, "unsafe.Pointer conversion: the memory model of the proofs (immutable strings, typed non-overlapping objects) does not hold")
+		e.havocVal(x)
+		return
+	}
 	v := e.termOf(x.X)
 	fb, fok := from.(*types.Basic)
 	tb, tok := to.(*types.Basic)
